@@ -12,6 +12,7 @@ import (
 	"berty.tech/go-ipfs-log/entry"
 	"berty.tech/go-ipfs-log/identityprovider"
 	"berty.tech/go-ipfs-log/iface"
+	"berty.tech/go-ipfs-log/io/cbor"
 	"github.com/ipfs/go-cid"
 	cbornode "github.com/ipfs/go-ipld-cbor"
 	"github.com/multiformats/go-multibase"
@@ -223,7 +224,7 @@ func (w *World) checkLinkKeyEntry(n *Node, e iface.IPFSLogEntry, me *MEntry) {
 	for _, rd := range []struct {
 		name string
 		io   iface.IO
-	}{{"a different key", linkIO(linkKeyBytes(2))}, {"no key", defaultIO()}} {
+	}{{"a different key", linkIO(linkKeyBytes(2))}, {"no key", defaultIO()}, {"no key (codec derived from the keyed one with empty options)", keylessFrom(w.IO)}} {
 		d2, err := entry.FromMultihashWithIO(w.ctx, w.St, e.GetHash(), n.W.ID.Provider, rd.io)
 		if err != nil {
 			continue // entry absent for this reader
@@ -232,6 +233,14 @@ func (w *World) checkLinkKeyEntry(n *Node, e iface.IPFSLogEntry, me *MEntry) {
 			r.Violate("C18:foreign-reader-links", "reader with %s obtained next=%v refs=%v from the block of %s", rd.name, d2.GetNext(), d2.GetRefs(), w.M.Name(me.Hash))
 		}
 	}
+}
+
+// keylessFrom: the codec an application gets by deriving from its keyed codec with options that name no key.
+func keylessFrom(io iface.IO) iface.IO {
+	if c, ok := io.(*cbor.IOCbor); ok {
+		return c.ApplyOptions(&cbor.Options{})
+	}
+	return defaultIO()
 }
 
 // doReader (C18): a reader node loads a keyed log with the same / another / no key.
@@ -303,8 +312,13 @@ func (w *World) doRawEntry() {
 	n := w.pickUp("raw-node")
 	nNext := r.Choose("raw-nnext", 4)
 	nRefs := r.Choose("raw-nrefs", 5)
+	if long := r.Choose("raw-long-lists", 6); long == 0 {
+		nNext = 9 + r.Choose("raw-nnext-long", 6) // lists long enough to leave any small-list fast path
+	} else if long == 1 {
+		nRefs = 9 + r.Choose("raw-nrefs-long", 8)
+	}
 	handBuilt := r.Choose("raw-handbuilt", 3) == 0
-	picks := make([]int, 9)
+	picks := make([]int, 40)
 	for i := range picks {
 		picks[i] = r.Choose("raw-pick", 1<<16)
 	}
@@ -326,7 +340,7 @@ func (w *World) doRawEntry() {
 			}
 		}
 		for i := 0; i < nRefs; i++ {
-			c := w.Cids[known[picks[4+i]%len(known)]]
+			c := w.Cids[known[picks[20+i]%len(known)]]
 			if !containsCid(refs, c) && !containsCid(next, c) {
 				refs = append(refs, c)
 			}
@@ -341,6 +355,9 @@ func (w *World) doRawEntry() {
 		e, err := entry.CreateEntryWithIO(w.ctx, w.St, n.W.ID, tmpl, nil, w.IO)
 		if err != nil {
 			r.Violate(w.P.Prop+":create-entry", "CreateEntryWithIO failed for next=%d refs=%d: %v", len(next), len(refs), err)
+		}
+		if w.P.Check["C08"] && (!cidsEq(e.GetNext(), next) || !cidsEq(e.GetRefs(), refs)) {
+			r.Violate("C08:create-entry-links", "CreateEntryWithIO returned an entry whose link lists differ from the (duplicate-free) ones supplied: next %d/%d refs %d/%d entries, or another order", len(e.GetNext()), len(next), len(e.GetRefs()), len(refs))
 		}
 		me := w.register(e)
 		r.Logf("raw-entry %s next=%d refs=%d cid=%s", w.M.Name(me.Hash), len(next), len(refs), me.Hash)
